@@ -42,6 +42,10 @@ TOTAL_ACCESSORS = {
     "<alloc::sync::Arc as core::ops::deref::Deref>::deref", "<alloc::vec::Vec as core::ops::deref::Deref>::deref",
     "<smallvec::SmallVec as core::ops::deref::Deref>::deref",
 }
+# accessors that reach every contained value when they succeed, and whose failure does not mean "nothing there": a trace
+# call may sit behind them only if the failing outcome does not return normally (it panics, as `borrow()` would)
+FALLIBLE_ACCESSORS = {"lock::RefLock::try_borrow", "core::cell::RefCell::try_borrow"}
+TOTAL_ACCESSORS |= FALLIBLE_ACCESSORS
 # accessors that split their receiver into a tuple of parts: total only if every part is traced
 SPLITTING_ACCESSORS = {"alloc::collections::vec_deque::VecDeque::as_slices": 2}
 # known partial traversals (named for better diagnostics; anything not TOTAL is rejected anyway)
@@ -426,6 +430,8 @@ def _allowed_condition(prog, body, defs, op, depth=0, root=1):
         if kind == "rv" and d["k"] == "discr":
             ch = chains_of(prog, body, defs, {"k": "copy", "p": d["p"]})
             roots = {r for (r, a, f) in ch}
+            if any(x in FALLIBLE_ACCESSORS for (r, a, f) in ch for x in a):
+                return False        # a failed borrow is not an empty container: skipping on it loses the value
             if roots and roots <= {root}:
                 ok_any = True
             else:
